@@ -21,6 +21,10 @@ RULE = (
     "Non-trivial = history with a move across a cell boundary followed by >= 1 later step, "
     "with >= 2 registered atoms within the cell size of each other.  "
     "pipeline: full pdb2pqr runs with Cells.get_near_cells wrapped by the harness (see DESIGN)."
+    ' windows / nettable: the pipeline audit on real-structure windows and on the directed network '
+    "table.  The audit also checks the map's own invariants: every registered atom sits in the cell "
+    'of its current coordinates; at the end of a run every atom of the structure is registered; a '
+    'returned one-shot iterable walked twice is reported.'
 )
 ASSUMPTIONS = [
     "oracle: brute-force numpy distances over the model set maintained by the harness",
